@@ -26,6 +26,7 @@ type Result struct {
 	Rows    []string // canonical rows in RETURNED order (col=key; over Cols sorted by name)
 	Cells   [][]Val  // cells in returned order, columns in Cols order
 	NilBoth bool     // (nil table, nil error)
+	Printed []string // the rows as the table prints them (cell texts: anchors with the zone they carry), returned order
 	Stack   string   // for panics: the badwolf frames of the panicking goroutine
 }
 
@@ -141,6 +142,17 @@ func ExecCtx(ctx context.Context, st storage.Store, text string, chanSize, bulkS
 			sort.Strings(cs)
 		}
 		res.Rows, res.Cells = Canon(tbl, cs)
+		for _, r := range tbl.Rows() {
+			var sb strings.Builder
+			for _, c := range cs {
+				if cell := r[c]; cell != nil {
+					sb.WriteString(c + "=" + cell.String() + ";")
+				} else {
+					sb.WriteString(c + "=<nil>;")
+				}
+			}
+			res.Printed = append(res.Printed, sb.String())
+		}
 	}()
 	select {
 	case r := <-done:
